@@ -10,6 +10,7 @@ import (
 	"path/filepath"
 	"runtime"
 	"strings"
+	"time"
 
 	"grits/parser"
 	"verifharness/gen"
@@ -86,12 +87,27 @@ func (r *simReader) Read(p []byte) (int, error) {
 }
 
 type parseOutcome struct {
-	Res   string
-	Hung  bool
-	Panic string
+	Res     string
+	Hung    bool
+	Panic   string
+	Blocked bool
 }
 
+// parseWith runs the parser in a goroutine of its own: a parser that blocks (for instance on
+// its own error channel) must not take the worker down with Go's "all goroutines are asleep"
+// abort; it is reported as a hang after a grace period in which no reader call was made.
 func parseWith(r *simReader) (out parseOutcome) {
+	done := make(chan parseOutcome, 1)
+	go func() { done <- parseWithInline(r) }()
+	select {
+	case out = <-done:
+		return out
+	case <-time.After(3 * time.Second):
+		return parseOutcome{Blocked: true}
+	}
+}
+
+func parseWithInline(r *simReader) (out parseOutcome) {
 	defer func() {
 		if x := recover(); x != nil {
 			if _, ok := x.(hangSentinel); ok {
@@ -206,6 +222,9 @@ func ExecStreamCase(c *StreamCase) (*Violation, streamStats) {
 	if out.Panic != "" {
 		return mk("panic", "parser panicked: "+out.Panic), st
 	}
+	if out.Blocked {
+		return mk("hang", fmt.Sprintf("ParseReader did not return within 3 s although the reader was not being called: the parser is blocked (input tail %q)", tail(c.Text, 40))), st
+	}
 	if out.Hung {
 		return mk("hang", fmt.Sprintf("ParseReader kept reading after end of input: more than %d Read calls after the reader reported EOF/error (input tail %q)", postEOFLimit, tail(c.Text, 40))), st
 	}
@@ -216,7 +235,7 @@ func ExecStreamCase(c *StreamCase) (*Violation, streamStats) {
 	// chunking independence: same result as the delivered bytes in one piece
 	delivered := data[:r.pos]
 	ref := parseWith(&simReader{data: delivered, errAt: -1})
-	if ref.Hung || ref.Panic != "" {
+	if ref.Hung || ref.Blocked || ref.Panic != "" {
 		return mk("hang", "reference parse (single chunk) of the delivered bytes hung or panicked: "+ref.Panic), st
 	}
 	if ref.Res != out.Res {
